@@ -60,7 +60,7 @@ for (pid, n), (what, needs, caught, missed) in sorted(M.items()):
         res = json.load(open(resf))
     except Exception:
         pass
-    if res is None and os.path.exists(f"{d}/meta.json"):
+    if (res is None or not os.path.exists(f"{src}/patch{k}.diff")) and os.path.exists(f"{d}/meta.json"):
         meta = json.load(open(f"{d}/meta.json"))   # already recorded earlier
     else:
         if res is None or not res.get("valid"):
